@@ -515,11 +515,13 @@ func ruleSettingsValidation(c *Ctx, rule string) {
 	c.check(!inLoop(closeAwait.Block()), rule, w.Short(fn)+": settings signal closed once", w.At(closeAwait), "not in a loop", "close of the settings signal inside a loop: second close panics")
 	// prologue guarded by the server-sends-settings flag
 	var first ssa.Instruction
-	for _, e := range w.directEffects(fn).Effects {
-		if e.Kind == "carrier-recv" && e.Instr != recv {
-			first = e.Instr
+	allInstrs(fn, func(in ssa.Instruction) { // incl. a prologue split off into a helper
+		if ci, ok := in.(ssa.CallInstruction); ok && in != recv {
+			if k, isOp := w.carrierOp(ci); isOp && k == "carrier-recv" {
+				first = in
+			}
 		}
-	}
+	})
 	if first == nil {
 		c.fail(rule, w.Short(fn)+": settings read", posOf(w, fn), "no settings Recv before the loop")
 		return
@@ -541,29 +543,35 @@ func ruleSettingsValidation(c *Ctx, rule string) {
 		if recv != nil && dominates(recv, call) {
 			continue
 		}
-		good, _ := nonNilErrorPhiAware(call.Common().Args[1], call)
-		for _, f := range factsAt(call) {
-			x, op, y, ok := cmpFact(f)
-			if ok {
-				if _, ch := fieldChain(x); len(ch) == 1 && ch[0] == "StreamId" {
-					if k, isK := constInt(y); isK && k == -1 && op == token.NEQ {
-						cases["bad stream id"].found = good
+		// every value the close can be called with (the prologue may return its errors to the loop function, which closes)
+		for _, vc := range valueCases(call.Common().Args[1], 0) {
+			good, _ := nonNilErrorPhiAware(vc.Val, nil)
+			if len(vc.Facts) == 0 {
+				good, _ = nonNilErrorPhiAware(call.Common().Args[1], call)
+			}
+			for _, f := range append(append([]EdgeFact{}, vc.Facts...), factsAt(call)...) {
+				x, op, y, ok := cmpFact(f)
+				if ok {
+					if _, ch := fieldChain(x); len(ch) == 1 && ch[0] == "StreamId" {
+						if k, isK := constInt(y); isK && k == -1 && op == token.NEQ {
+							cases["bad stream id"].found = good
+						}
+					}
+					if op == token.NEQ && isNilConst(y) {
+						if ex, isEx := origin(x).(*ssa.Extract); isEx && ex.Index == 1 {
+							cases["read failure"].found = good
+						}
 					}
 				}
-				if op == token.NEQ && isNilConst(y) {
-					if ex, isEx := origin(x).(*ssa.Extract); isEx && ex.Index == 1 {
-						cases["read failure"].found = good
+				nf := normFact(f)
+				if ex, isEx := origin(nf.Cond).(*ssa.Extract); isEx && ex.Index == 1 && !nf.True {
+					if _, isTA := ex.Tuple.(*ssa.TypeAssert); isTA {
+						cases["wrong first frame"].found = good
 					}
 				}
-			}
-			nf := normFact(f)
-			if ex, isEx := origin(nf.Cond).(*ssa.Extract); isEx && ex.Index == 1 && !nf.True {
-				if _, isTA := ex.Tuple.(*ssa.TypeAssert); isTA {
-					cases["wrong first frame"].found = good
+				if phi, isPhi := origin(nf.Cond).(*ssa.Phi); isPhi && !nf.True && phi.Comment == "supported" {
+					cases["no common revision"].found = good
 				}
-			}
-			if phi, isPhi := origin(nf.Cond).(*ssa.Phi); isPhi && !nf.True && phi.Comment == "supported" {
-				cases["no common revision"].found = good
 			}
 		}
 	}
